@@ -668,3 +668,166 @@ pub fn c10(rep: &mut Report) {
         }
     }
 }
+
+// ------------------------------------------------------------------------------------------ C02
+/// a full-frame write is independent of the calls made before it
+pub fn c02(rep: &mut Report, thorough: bool) {
+    let alpha: Vec<Vec<Op12>> = vec![
+        vec![Op12::Write1Partial((640, 488, 16, 8), vec![0xA5; 16])],
+        vec![Op12::Write2Partial((8, 8, 64, 4), vec![0x5A; 32])],
+        vec![Op12::Write1Partial((0, 0, W, H), small_rows(1))],
+        vec![Op12::RefreshPartial((632, 480, 32, 24))],
+        vec![Op12::BeginRefreshPartial((8, 8, 64, 64)), Op12::PollUntilIdle],
+        vec![Op12::Refresh],
+        vec![Op12::PowerOff],
+        vec![Op12::SetMode(9)],
+        vec![Op12::SetLut(0x22, vec![7; 11])],
+        vec![Op12::Write2(small_rows(2))],
+        vec![Op12::Hibernate, Op12::Reset, Op12::Init(0)],
+        vec![Op12::Reset, Op12::Init(3)],
+        vec![Op12::GetStatus],
+    ];
+    let probe = |plane2: bool| -> Op12 {
+        let p = crate::props::c15::pixels((W / 8) as usize, H as usize, 0xC0212);
+        if plane2 {
+            Op12::Write2(p)
+        } else {
+            Op12::Write1(p)
+        }
+    };
+    let snapshot = |rig: &Rig12, plane2: bool| -> Vec<(u64, u64)> {
+        rig.board
+            .borrow()
+            .chips
+            .iter()
+            .map(|c| {
+                let pl = &c.planes[plane2 as usize];
+                (crate::prng::hash_bytes(&pl.data), crate::prng::hash_bytes(&pl.wc.iter().map(|w| (*w).min(255) as u8).collect::<Vec<_>>()))
+            })
+            .collect()
+    };
+    let fresh: Vec<Vec<(u64, u64)>> = [false, true]
+        .iter()
+        .map(|p2| {
+            let mut r = Rig12::ready();
+            for c in r.board.borrow_mut().chips.iter_mut() {
+                c.mark();
+            }
+            let _ = r.apply(&probe(*p2));
+            snapshot(&r, *p2)
+        })
+        .collect();
+    let maxlen = if thorough { 3 } else { 2 };
+    let mut seqs: Vec<Vec<usize>> = vec![vec![]];
+    let mut all: Vec<Vec<usize>> = Vec::new();
+    for _ in 0..maxlen {
+        let mut nx = Vec::new();
+        for s in &seqs {
+            for a in 0..alpha.len() {
+                let mut t = s.clone();
+                t.push(a);
+                nx.push(t);
+            }
+        }
+        all.extend(nx.iter().cloned());
+        seqs = nx;
+    }
+    for h in all {
+        for p2 in [false, true] {
+            if p2 && h.len() > 1 && !thorough {
+                continue;
+            }
+            rep.eval(P);
+            let mut rig = Rig12::ready();
+            let ops: Vec<Op12> = h.iter().flat_map(|i| alpha[*i].iter().cloned()).collect();
+            let mut ok = true;
+            for o in &ops {
+                if !rig.apply(o).is_ok() {
+                    ok = false;
+                    break;
+                }
+            }
+            if !ok {
+                rep.count("histories_with_failing_op", 1);
+                continue;
+            }
+            for c in rig.board.borrow_mut().chips.iter_mut() {
+                c.mark();
+            }
+            let pr = probe(p2);
+            let o = rig.apply(&pr);
+            let case = J::obj().set("panel", P).set("history", ops.iter().map(|o| o.to_json()).collect::<Vec<_>>()).set("probe", pr.name());
+            rep.nontrivial(hash_str(&format!("12c02|{:?}|{}", h, p2)));
+            if !o.is_ok() {
+                fail(rep, pr.name(), "probe-failed", vec![], o.short(), case);
+                continue;
+            }
+            let snap = snapshot(&rig, p2);
+            rep.count("plane_bytes_compared", (W / 8 * H) as u64);
+            for ci in 0..4 {
+                if snap[ci] != fresh[p2 as usize][ci] {
+                    let first = h.iter().map(|i| alpha[*i][0].name()).collect::<Vec<_>>().join(">");
+                    fail(rep, pr.name(), "probe-plane-differs", vec![format!("chip={}", CHIP_NAMES[ci]), format!("hist:{}", first)], format!("after the history the full-frame write leaves chip {} different from a fresh driver", CHIP_NAMES[ci]), case.clone());
+                    break;
+                }
+            }
+        }
+    }
+}
+
+// ------------------------------------------------------------------------------------------ C12
+/// twin execution on the 12.48in driver: buffers complemented (and dropped) right after the call
+pub fn c12(rep: &mut Report) {
+    let seqs: Vec<Vec<Op12>> = vec![
+        vec![Op12::Write1(small_rows(2)), Op12::Write2(small_rows(1)), Op12::Refresh],
+        vec![Op12::Write1Partial((640, 488, 16, 8), vec![0xA5; 16]), Op12::RefreshPartial((640, 488, 16, 8)), Op12::Write1Partial((640, 488, 16, 8), vec![0x11; 16])],
+        vec![Op12::SetLut(0x20, vec![1; 20]), Op12::SetLut(0x21, vec![2; 42]), Op12::SetMode(16), Op12::Refresh],
+        vec![Op12::Write2(small_rows(3)), Op12::Write1(small_rows(3)), Op12::Write2Partial((8, 8, 64, 4), vec![0x5A; 32]), Op12::Refresh, Op12::Write1(small_rows(1))],
+    ];
+    let trace = |rig: &Rig12| -> Vec<(u16, Vec<u8>)> {
+        let b = rig.board.borrow();
+        b.log
+            .iter()
+            .filter_map(|e| match e {
+                Ev::Spi { levels, off, len, .. } => Some((*levels, b.bytes[*off as usize..(*off + *len) as usize].to_vec())),
+                _ => None,
+            })
+            .collect()
+    };
+    for seq in seqs {
+        rep.eval(P);
+        let mut a = Rig12::ready();
+        let mut kept: Vec<Op12> = Vec::new();
+        for o in &seq {
+            let op = o.clone();
+            let _ = a.apply(&op);
+            kept.push(op);
+        }
+        let mut b = Rig12::ready();
+        for o in &seq {
+            let mut op = o.clone();
+            let _ = b.apply(&op);
+            // scribble the buffer the call borrowed, then drop it
+            match &mut op {
+                Op12::Write1(p) | Op12::Write2(p) | Op12::Write1Partial(_, p) | Op12::Write2Partial(_, p) | Op12::SetLut(_, p) => {
+                    for x in p.iter_mut() {
+                        *x = !*x;
+                    }
+                    std::hint::black_box(&p);
+                }
+                _ => {}
+            }
+            drop(op);
+            let junk = vec![0x5Au8; 4096];
+            std::hint::black_box(&junk);
+        }
+        let (ta, tb) = (trace(&a), trace(&b));
+        rep.count("transfers_compared", ta.len() as u64);
+        let case = J::obj().set("panel", P).set("history", seq.iter().map(|o| o.to_json()).collect::<Vec<_>>());
+        rep.nontrivial(hash_str(&format!("12c12|{}", case.to_string())));
+        if ta != tb {
+            let i = ta.iter().zip(tb.iter()).position(|(x, y)| x != y).unwrap_or(ta.len().min(tb.len()));
+            fail(rep, "epd12in48b_v2", "wire-depends-on-dead-buffer", vec![], format!("transfer {} differs between the run with intact buffers and the run with scribbled buffers", i), case);
+        }
+    }
+}
